@@ -30,6 +30,8 @@ ASSUMPTIONS = [
     "reference models (mc/ref/tensor_ref.py) use numpy/scipy/fractions only: f(Q L Q^T) = Q f(L) Q^T from the "
     "construction, scipy.linalg.expm_frechet, Sylvester solve for sqrt, inverse exp-Frechet operator for log, "
     "composition for pow, exact rational det(A+I)-1, scipy.linalg.expm for logm_iss",
+    "every tensor function is compiled in two program shapes, f(A) alone and jax.jvp(f,(A,),(E,)), each in both "
+    "execution modes (XLA rounds the same routine differently in different programs)",
     "x64, CPU, XLA flags of the launcher; batched mode always uses padded batches of exactly 256 (pad element "
     "diag(1,2,3)); other batch lengths are outside the alphabet (lengths 2..256 were probed once: same defect)",
     "D11 classification is by construction labels: relative gap = min neighbouring eigenvalue distance / spectral "
@@ -48,24 +50,30 @@ ASSUMPTIONS = [
     "the property speaks about them)",
 ]
 TOLERANCES = {
-    "eigen reconstruction |V L V^T - A|_F / |A|_F": "1e-7 (calibrated: single-call worst 4.7e-10 at gap 1e-9, 45 deg)",
-    "eigen orthonormality |V^T V - I|_F": "1e-7 (worst 5.6e-16 single)",
-    "eigenvalues vs construction / |A|": "1e-7",
+    "eigen_sym33_unit: reconstruction |V L V^T - A|_F/|A|_F, orthonormality |V^T V - I|_F, eigenvalues vs "
+    "construction /|A|": "1e-7 each (single-call worst over both tiers: 4.71e-10 at gap 1e-9 and 45 deg in-plane, "
+                         "6.0e-16, 3.3e-10)",
+    "eigen_sym33_non_unit (columns normalised by the harness)": "1e-6 (single-call worst 3.54e-9 at gap 1e-8, thorough)",
     "ascending order": "exact",
-    "f(A) vs construction, sqrt^2=A, exp(log)=A, pow2=AA, pow(m)pow(-m)=I, equivariance": "1e-7 relative (Frobenius)",
-    "log(exp(A)) = A": "1e-7 * (1 + |A|)",
-    "JVP vs Frechet derivative": "1e-7 relative to |L_f(A,E)|_F",
+    "f(A) vs construction, sqrt^2=A, pow2=AA, pow(m)pow(-m)=I, equivariance, symmetry of f(A)":
+        "1e-6 relative (Frobenius); worst observed single-call 1.83e-9 (pow, thorough tier), so 100x worst "
+        "= 1.8e-7 forces tau above the 1e-7 of the design; a wrong branch / formula gives >= 1e-3",
+    "exp(log(A)) = A": "1e-7 relative (worst 4.7e-10)",
+    "log(exp(A)) = A": "1e-7 * (1 + |A|) (worst 3.5e-10)",
+    "JVP vs Frechet derivative": "1e-6 relative to |L_f(A,E)|_F (worst observed 1e-9 single-call)",
     "detpIm1 vs exact rational": "1e-14 * sum|terms|",
     "inv: |A inv(A) - I|, |inv(A) A - I|": "cond * 1e-10",
-    "right polar decomposition: RU=F, R^T R=I, U=U^T, U vs construction": "max(cond*1e-10, 1e-7) (eigen-solver based)",
+    "right polar decomposition: RU=F, R^T R=I, U=U^T, U vs construction": "max(cond*1e-10, 1e-5) (eigen-solver based; worst single-call 1.73e-8 at gap 1e-8, thorough)",
     "LinAlg.sqrtm^2 = A, expm(logm_iss(A)) = A": "cond(construction) * 1e-10 relative",
     "safe_sqrt value / derivative": "exact / 4 ulp",
 }
 
 D11_KEY = "eigen_sym33_unit|batched|near-repeated-spectrum"
 BATCH = 256
-TAU = 1e-7          # eigen-decomposition oracles (DESIGN: calibrated worst 4.7e-10)
-TAU_FUN = 1e-6      # function values / identities / equivariance / JVP / polar (worst observed 1.7e-9 single-call)
+TAU = 1e-7          # eigen_sym33_unit oracles (DESIGN; worst single-call 4.71e-10 over both tiers)
+TAU_NON_UNIT = 1e-6  # eigen_sym33_non_unit (worst single-call 3.54e-9, thorough tier, gap 1e-8)
+TAU_FUN = 1e-6      # function values / identities / equivariance / JVP (worst single-call 1.83e-9, both tiers)
+TAU_POLAR = 1e-5    # right_polar_decomposition (worst single-call 1.73e-8: R^T R = I at gap 1e-8, thorough tier)
 EIGEN_BASED = {"eigen_unit", "eigen_non_unit", "sqrt", "exp", "log", "pow", "explog", "logexp", "polar",
                "sqrt_value", "exp_value", "log_value", "pow_value"}
 JVP_ROUTINES = ("sqrt", "exp", "log", "pow")                       # program = jax.jvp(f, (A,), (E,))
@@ -338,6 +346,7 @@ def _judge_eigen(routine, c, out):
     A = md["A"]
     l, V = onp.asarray(out[0], dtype=float), onp.asarray(out[1], dtype=float)
     fails, met = [], {}
+    tau = TAU if routine == "eigen_unit" else TAU_NON_UNIT
     if routine == "eigen_non_unit":
         # documented: vectors may not be unit length -> normalise columns on the host
         with onp.errstate(all="ignore"):
@@ -355,11 +364,11 @@ def _judge_eigen(routine, c, out):
     lref = onp.sort(onp.asarray(md["lam"]))
     evd = float(onp.abs(onp.sort(l) - lref).max() / den)
     met.update({"reconstruction": rec_, "orthonormality": orth, "eigenvalues": evd})
-    if not _le(rec_, TAU):
+    if not _le(rec_, tau):
         fails.append(("reconstruction", {"rel_error": rec_}))
-    if not _le(orth, TAU):
+    if not _le(orth, tau):
         fails.append(("orthonormality", {"error": orth}))
-    if not _le(evd, TAU):
+    if not _le(evd, tau):
         fails.append(("eigenvalues", {"rel_error": evd}))
     return fails, met, {}
 
@@ -465,11 +474,11 @@ def _judge_compose(routine, c, out):
     if routine == "explog":
         v = _rel(X, A)
         met["exp(log)=id"] = v
-        ok = _le(v, TAU_FUN)
+        ok = _le(v, TAU)
     else:
         v = _fro(X - A) / (1.0 + _fro(A))
         met["log(exp)=id"] = v
-        ok = _le(v, TAU_FUN)
+        ok = _le(v, TAU)
     if not ok:
         fails.append(("identity", {"error": v}))
     return fails, met, {}
@@ -482,7 +491,7 @@ def _judge_polar(c, out):
     fails, met = [], {}
     if not (onp.all(onp.isfinite(Rl)) and onp.all(onp.isfinite(U))):
         return [("nan", {})], met, {}
-    tol = max(md["cond"] * 1e-10, TAU_FUN)
+    tol = max(md["cond"] * 1e-10, TAU_POLAR)
     e1 = _rel(Rl @ U, F)
     e2 = _fro(Rl.T @ Rl - onp.eye(3))
     e3 = _rel(U.T, U)
@@ -522,7 +531,7 @@ def _violation(rec, key, cid, det):
     MAX_RECORDS_PER_KEY records of every key so that no key can be crowded out, count all of them."""
     seen = rec.__dict__.setdefault("_c12_perkey", {})
     seen[key] = seen.get(key, 0) + 1
-    rec.branch("violations-by-key:" + key)
+    rec.branch("finding-count:" + key)
     if seen[key] <= MAX_RECORDS_PER_KEY or rec.only is not None:
         rec.violation(key, cid, det)
 
